@@ -641,6 +641,13 @@ Proof.
   exact (reuse_vs_new sv e pc F I run H1 H2 H3 H4 H5 H6 H7 rv rr g en c Hr HF).
 Qed.
 
+Lemma reachable_invariant_hyps :
+  forall sv e pc F I run, hyps sv I run -> forall g, reachable sv e pc F I run g -> Inv e pc F g.
+Proof.
+  intros sv e pc F I run [H1 [H2 [H3 [H4 [H5 [H6 H7]]]]]] g Hr.
+  exact (reachable_Inv sv e pc F I run H2 H3 H4 H5 H6 H7 g Hr).
+Qed.
+
 (* after ResetVars and ResetRand the comparison is with an untouched new interpreter *)
 Lemma carry_full g s : carry true true g s = s.
 Proof. reflexivity. Qed.
